@@ -64,7 +64,7 @@ def plan(tier):
         "budget_s": 60 if q else 900,
         "timeout_s": 900 if q else 4000,
         "jail": True,
-        "min_nontrivial": 10 if q else 100,
+        "min_nontrivial": 10 if q else 60,
         "required_counters": ["programs", "identical"],
         "rule": "seeded CWL v1.2 CommandLineTools running a probe: class R (rich: 1..6 bound inputs of string/int/long/float/"
                 "double/boolean/enum/File/optional/array/nested array/record types with position (ints, expressions), prefix, "
@@ -571,7 +571,7 @@ def fixed_corpus(probe):
 def class_of(sh: Shard, i: int) -> str:
     if sh.quick():
         return "T" if i % 5 in (1, 3) else "R"
-    return ("R", "T", "W", "R", "W", "T", "R", "W")[i % 8]
+    return ("R", "T", "W", "R", "R", "T", "R", "W")[i % 8]
 
 
 def run_shard(sh: Shard) -> None:
@@ -602,7 +602,9 @@ def run_shard(sh: Shard) -> None:
             dirs.append(d)
         refs = R.run_reference(sh.scratch, dirs, timeout=900)
         for c, d, r in zip(cases, dirs, refs):
-            judge(sh, run, c, d, r, allow_shrink=True, deadline=deadline + sh.plan["budget_s"])
+            # shrinking may run past the case budget (it is what decides known vs new), but not into the watchdog
+            judge(sh, run, c, d, r, allow_shrink=True,
+                  deadline=max(deadline + sh.plan["budget_s"], t_start + 0.7 * sh.plan["timeout_s"]))
     sh.note("wall_s_cases", round(time.time() - t_start, 1))
 
 
